@@ -310,7 +310,11 @@ pub fn check(env: &mut Env, case: &Case) -> Verdict {
     let vars: Vec<String> = (0..NVARS).map(|i| format!("X{i}")).collect();
     let vl = format!("[{}]", vars.join(","));
     let goal = format!("Vs = {vl}, {}, copy_term(Vs, C0, G0), {}, copy_term(Vs, C1, G1), bb_get(c11k, K1), bb_get(c11b, B1)", pre.join(", "), probe_text(case.probe, &gs.join(", ")));
-    let o = env.s.ask(&goal, "r(C0,G0,C1,G1,K1,B1)");
+    // path 1: the goal as a query (variables live on the heap); path 2: the same goal as the body of
+    // an assertz-compiled clause (variables are permanent variables in an environment frame, the
+    // probes are compiled control constructs)
+    let o1 = env.s.ask(&goal, "r(C0,G0,C1,G1,K1,B1)");
+    let o2 = env.s.ask(&format!("retractall(c11t(_)), assertz((c11t(r(C0,G0,C1,G1,K1,B1)) :- {goal})), c11t(R0)"), "R0");
     let mut classes = vec![];
     if inner.bound_old {
         classes.push("bound-old-var");
@@ -326,7 +330,9 @@ pub fn check(env: &mut Env, case: &Case) -> Verdict {
     }
     classes.push(["naf", "ite-cond", "findall", "catch-throw", "disjunction", "forall"][case.probe as usize % 6]);
     let nontrivial = (inner.bound_old && inner.bound_new) || inner.attr_changed;
-    match &o {
+    for (path, o) in [("query", &o1), ("compiled-clause", &o2)] {
+      let goal = format!("[{path}] {goal}");
+      let verdict = match o {
         Outcome::Sols(v) if v.len() == 1 => {
             let T::Cmp(_, args) = &v[0] else { return Verdict::Discard("shape".into()) };
             let before = T::Cmp("s".into(), vec![args[0].clone(), args[1].clone()]);
@@ -347,7 +353,12 @@ pub fn check(env: &mut Env, case: &Case) -> Verdict {
         Outcome::Panic(p) => Verdict::fail(format!("panic:{}", p.split_whitespace().next().unwrap_or("?")), format!("{goal} panicked: {p}")),
         Outcome::Harness(h) => Verdict::Discard(format!("harness:{}", h.chars().take(40).collect::<String>())),
         other => Verdict::fail(format!("probe-did-not-succeed:{}", classes.last().unwrap()), format!("{goal} gave {}", other.short())),
+      };
+      if !matches!(verdict, Verdict::Pass { .. }) {
+          return verdict;
+      }
     }
+    Verdict::pass(nontrivial, &classes)
 }
 
 pub struct C11;
